@@ -489,3 +489,72 @@ func sortedKeys(m map[string]int) []string {
 	sort.Strings(ks)
 	return ks
 }
+
+// ---- results of earlier calls must not change under later calls ----
+
+// holder keeps re-readable observations of objects returned earlier in a history.
+type holder struct {
+	re  []func() string
+	was []string
+}
+
+func (h *holder) hold(f func() string) {
+	var v string
+	if guard(func() { v = f() }) == "" {
+		h.re, h.was = append(h.re, f), append(h.was, v)
+	}
+}
+
+func (h *holder) same() bool {
+	ok := true
+	for i, f := range h.re {
+		var v string
+		if guard(func() { v = f() }) != "" || v != h.was[i] {
+			ok = false
+		}
+	}
+	return ok
+}
+
+func jsonOf(v interface{}) string {
+	b, _ := json.Marshal(v)
+	return string(b)
+}
+
+// grouper merges single-event histories of the given ops into histories of one to three events.
+// Events that were generated next to each other (often variants of one object) are not put
+// together: a group takes events that were generated four apart.
+func grouper(emit0 func([]Ev), ops ...string) (emit func([]Ev), flush func()) {
+	var q []Ev
+	groups := 0
+	take := func(force bool) {
+		for len(q) >= 9 || (force && len(q) > 0) {
+			n := 1 + groups%3
+			groups++
+			var g, rest []Ev
+			for i, e := range q {
+				if i%4 == 0 && len(g) < n {
+					g = append(g, e)
+				} else {
+					rest = append(rest, e)
+				}
+			}
+			q = rest
+			emit0(g)
+		}
+	}
+	emit = func(h []Ev) {
+		if len(h) == 1 {
+			for _, op := range ops {
+				if GS(h[0]["op"]) == op {
+					q = append(q, h[0])
+					take(false)
+					return
+				}
+			}
+		}
+		emit0(h)
+	}
+	flush = func() { take(true) }
+	return
+}
